@@ -263,7 +263,8 @@ def from_hidc(node):
     if isinstance(node, H.ByteValue):
         return ('char', node.data)
     if isinstance(node, H.IntValue):
-        return ('int', node.data)
+        # a literal in the source is a literal wherever it stands: parentheses must not change what it is (its coercibility to byte included)
+        return ('int', node.data) if getattr(node, 'shrinkable', True) else ('int-not-a-literal', node.data)
     if isinstance(node, H.BoolValue):
         return ('bool', node.data)
     if isinstance(node, H.StringValue):
